@@ -229,9 +229,9 @@ func runC03One(l *Layout, prod, profile string, del sim.Delivery, opts ReadOpts,
 	}
 	// an indexed CID longer than the limit must be refused with ErrCidTooLarge
 	if !embedded {
-		lim := int(orDefault(opts.MaxIdxCid, 2048))
+		lim := orDefault(opts.MaxIdxCid, 2048)
 		for _, s := range l.Payload.Sections {
-			if (indexesIdentity || !IsIdentity(s.Cid)) && s.CidLen > lim {
+			if (indexesIdentity || !IsIdentity(s.Cid)) && uint64(s.CidLen) > lim {
 				var tl *carv2.ErrCidTooLarge
 				if err == nil || !errors.As(err, &tl) {
 					return viol("medium/index-unsound/cid-too-large@"+loc, "payload has a %d-byte CID over the %d-byte limit but index generation returned %v", s.CidLen, lim, err)
@@ -337,7 +337,7 @@ func GenC03(seed uint64, run int) *Trace {
 	}
 	opts := ReadOpts{StoreID: r.Chance(1, 2)}
 	if r.Chance(1, 5) {
-		opts.MaxIdxCid = 40
+		opts.MaxIdxCid = Pick(r, []uint64{40, 40, 40, 40, 1 << 63, ^uint64(0)})
 	}
 	if r.Chance(1, 12) {
 		// a family of keys of one width that agree in their leading bytes (look-alike inline blocks, made-up
